@@ -1428,6 +1428,14 @@ pub struct ForgeStats {
     pub classes: std::collections::BTreeMap<String, u64>,
 }
 
+/// accumulator of a HornerAcc op in a trace (the value of the slot its `intermediate_out` names)
+fn op_acc(op: &Op<F>, t: &Traces<F>) -> Option<F> {
+    match op {
+        Op::Alu { intermediate_out: Some(io), .. } => t.witness_trace.get_value(*io).copied(),
+        _ => None,
+    }
+}
+
 fn row_relation_holds(kind: AluOpKind, v: &[F; 4], acc: Option<F>) -> bool {
     match kind {
         AluOpKind::Add => v[0] + v[1] == v[3],
@@ -1556,6 +1564,100 @@ pub fn check_c04(prog: &Program, built: &Built, rng: &mut StdRng, fs: &mut Forge
             }
             try_forged(fs, findings, &t, format!("single-cell-deviation-accepted:{name}.value"),
                 json!({"table": name, "row": row, "reads": reads}), None, &mut budget);
+        }
+    }
+    // ONE relation violated, everything else consistent: operand `b` (Horner: `c`) of one ALU op is redirected to another slot
+    // holding a different value, the REAL runner executes the altered circuit (so every later op sees the new result), public
+    // inputs are re-solved for the altered circuit, and the redirected cell of that one row is put back to the value of the
+    // original operand.  The resulting trace satisfies every row relation and every bus equation of the ORIGINAL circuit
+    // except the relation of that row - whatever the packing, the verifier must refuse it.
+    {
+        let honest_val = |w: WitnessId| honest.witness_trace.get_value(w).copied();
+        // the packings under which a forged trace is judged, prepared once per program (Horner packing factors only where
+        // the circuit has Horner steps); the default packing reuses the preparation made above
+        let has_horner = c.ops.iter().any(|o| matches!(o, Op::Alu { kind: AluOpKind::HornerAcc, .. }));
+        let mut preps: Vec<(Prep, TablePacking, &'static str)> = Vec::new();
+        if has_horner {
+            for (pk, pname) in [(TablePacking::new(1, 1).with_horner_pack_k(3), "k3"), (TablePacking::new(2, 2).with_horner_pack_k(4), "l2k4")] {
+                if let Ok(pr) = prepare(c, &pk) {
+                    if prove_verify_with(&pr, &honest, pk.clone()) == Verdict::Accepted {
+                        preps.push((pr, pk, pname));
+                    }
+                }
+            }
+        }
+        let mut done_kinds: Vec<AluOpKind> = Vec::new();
+        // from the last ALU op backwards: the last step of a packed Horner row is the one whose result the row exposes
+        let alu_idx: Vec<usize> = c.ops.iter().enumerate().filter(|(_, o)| matches!(o, Op::Alu { .. })).map(|(i, _)| i).collect();
+        for (row, &i) in alu_idx.iter().enumerate().rev() {
+            let op = &c.ops[i];
+            let Op::Alu { kind, a, b, c: cc, out, .. } = op else { continue };
+            if done_kinds.iter().filter(|k| *k == kind).count() >= 2 || *kind == AluOpKind::BoolCheck {
+                continue; // two forged rows per op kind and program
+            }
+            // which operand is redirected, and the cell of the row it occupies
+            let (cell, orig) = if *kind == AluOpKind::HornerAcc { (2usize, cc.unwrap()) } else { (1usize, *b) };
+            let Some(v0) = honest_val(orig) else { continue };
+            // another slot with a different value, not touched by this op
+            let Some(subst) = (0..c.witness_count).map(WitnessId).find(|w| *w != orig && *w != *out && *w != *a && Some(*w) != *cc && *w != *b
+                && honest_val(*w).is_some_and(|v| v != v0)) else { continue };
+            let mut forged = c.clone();
+            if let Op::Alu { b: fb, c: fc, .. } = &mut forged.ops[i] {
+                if cell == 2 { *fc = Some(subst) } else { *fb = subst }
+            }
+            let dead = dead_slots(&forged);
+            let fixed: Vec<(usize, F)> = c.private_input_rows.iter().zip(&privs).map(|(w, v)| (w.0 as usize, *v)).collect();
+            let Some((_, p2)) = ops_satisfying_assignment(&forged, prog.npub, &fixed, &[], &dead, false, rng) else { continue };
+            let Ok(mut t) = run_traces(&forged, &p2, &privs) else { continue };
+            let Some(orig_now) = t.witness_trace.get_value(orig).copied() else { continue };
+            if row >= t.alu_trace.values.len() || t.alu_trace.values[row][cell] == orig_now {
+                continue;
+            }
+            t.alu_trace.values[row][cell] = orig_now;
+            if row_relation_holds(*kind, &t.alu_trace.values[row], if *kind == AluOpKind::HornerAcc { op_acc(op, &t) } else { None }) {
+                continue; // the substitute happened to give the same result
+            }
+            done_kinds.push(*kind);
+            for (prep_k, pk, pname) in std::iter::once((&prep, &packing, "k2")).chain(preps.iter().map(|(a, b, n)| (a, b, *n))) {
+                // a packed Horner row does not materialise the result of its inner steps (the AIR recomputes them): when the
+                // committed ALU matrix is the one of the trace with this row's result put right, the deviation is not in the proof
+                if let Some(air) = prep_k.alu_air.as_ref() {
+                    let mut t_ok = t.clone();
+                    let v = t_ok.alu_trace.values[row];
+                    t_ok.alu_trace.values[row][3] = match kind {
+                        AluOpKind::Add => v[0] + v[1],
+                        AluOpKind::Mul => v[0] * v[1],
+                        AluOpKind::MulAdd => v[0] * v[1] + v[2],
+                        AluOpKind::HornerAcc => op_acc(op, &t).map_or(v[3], |ac| ac * v[1] + v[2] - v[0]),
+                        AluOpKind::BoolCheck => v[3],
+                    };
+                    let same = catch_unwind(AssertUnwindSafe(|| air.trace_to_matrix::<F>(&t.alu_trace, 1) == air.trace_to_matrix::<F>(&t_ok.alu_trace, 1))).unwrap_or(false);
+                    if same {
+                        fs.harmless_skipped += 1;
+                        continue;
+                    }
+                }
+                if budget == 0 {
+                    break;
+                }
+                budget -= 1;
+                fs.forgeries += 1;
+                let class = format!("single-relation-violation-accepted:{kind:?}");
+                *fs.classes.entry(class.clone()).or_default() += 1;
+                match prove_verify_with(prep_k, &t, pk.clone()) {
+                    Verdict::Accepted => {
+                        fs.accepted_harmful += 1;
+                        let mut signature = sig(&class, prog, Some(built));
+                        signature.push('+');
+                        signature.push_str(pname);
+                        findings.push(Finding { property: "C04".into(), kind: class, signature,
+                            detail: json!({"program": prog_json(prog), "input": input, "deviation": {"op": i, "alu_row": row, "redirected_cell": (if cell == 2 { "c" } else { "b" }), "packing": pname,
+                                "row": t.alu_trace.values[row].iter().map(|v| fu(*v)).collect::<Vec<_>>()},
+                                "circuit": circuit_json(c), "note": "every row relation and every bus equation of the circuit holds except the relation of this row; the real verifier accepted"}) });
+                    }
+                    _ => fs.rejected += 1,
+                }
+            }
         }
     }
     let _ = l;
